@@ -57,7 +57,7 @@ type c04Sim struct {
 
 func c04Config(tp *simkit.Tape) c04Cfg {
 	c := c04Cfg{}
-	c.Signal = adapters[tp.Draw(3)].name
+	c.Signal = []string{"logs", "traces", "metrics", "profiles"}[tp.Weighted(3, 3, 3, 1)]
 	c.Legacy = tp.Chance(1, 6)
 	if c.Legacy || tp.Chance(1, 2) {
 		c.Sizer = "items"
@@ -93,6 +93,9 @@ func c04Config(tp *simkit.Tape) c04Cfg {
 }
 
 func adapterByName(n string) *sigAdapter {
+	if n == "profiles" {
+		return profilesAdapter
+	}
 	for _, a := range adapters {
 		if a.name == n {
 			return a
@@ -281,7 +284,11 @@ func (s *c04Sim) observe(ev string) {
 			}
 			seen[id] = c.N
 		}
-		if s.cfg.Max > 0 && s.unitSize(c) > s.cfg.Max && len(c.Items) != 1 {
+		indivisible := len(c.Items) == 1
+		if s.ad.units != nil {
+			indivisible = s.ad.units(c.Payload) == 1 // profiles: one profile with all its samples
+		}
+		if s.cfg.Max > 0 && s.unitSize(c) > s.cfg.Max && !indivisible {
 			locus := s.cfg.Sizer
 			if s.ad.hollow(c.Payload) {
 				locus += "/batch-with-empty-containers"
